@@ -14,7 +14,7 @@
    driver). *)
 From Coq Require Import List NArith ZArith Bool Arith Lia Permutation.
 From Snow Require Import Model.GoHeap Model.ClientMap Model.QueueConn Model.Redial Model.RedialQueue.
-From Snow Require Import Proofs.GoHeapProofs Proofs.ClientMapProofs Proofs.QueueConnProofs Proofs.QueueOutProofs Proofs.QueueRetentionProofs Proofs.RedialProofs Proofs.RedialOverlapProofs Proofs.RedialCapacityProofs.
+From Snow Require Import Proofs.GoHeapProofs Proofs.ClientMapProofs Proofs.QueueConnProofs Proofs.QueueOutProofs Proofs.QueueRetentionProofs Proofs.RedialProofs Proofs.RedialOverlapProofs Proofs.RedialCapacityProofs Proofs.SweeperLockProofs.
 Import ListNotations.
 
 (* ================================================================ container/heap (GoHeap.v) *)
@@ -622,3 +622,45 @@ Example C17_redial_contents_hyps_satisfiable :
   step 1 2 (mkrs false ENone DDial [] 2 0 false false) LUWrite = Some (mkrs false ENone DDial [] 2 0 false false) /\
   ghost_send nat 2 (mkrs false ENone DDial [] 2 0 false false) LUWrite [7; 8] 9 = [7; 8].
 Proof. split; reflexivity. Qed.
+
+(* ---------------------------------------------------------------- the sweeper and the map's lock (Proofs/SweeperLockProofs.v)
+   The sweeper takes m.lock for every sweep.  When another goroutine is inside a critical section at a tick, a sweeper that
+   WAITS performs that sweep d later (0 <= d <= D); the removal window of C17_ticker_idle_client_removal_window widens by D
+   and nothing else changes: the idle client is kept by every sweep before last_seen + timeout, gone after the sweep of the
+   first tick at or after it, and that sweep happens before last_seen + timeout + period + D.  Tie: op `sweephold` (in-package,
+   real sweeper, the driver holds m.lock around every tick) and the busy-map monitor. *)
+Theorem C17_sweeper_waiting_for_lock_removes : forall cap timeout phase period D k0 segs s a r,
+  (0 < period)%Z -> cm_inv (clients s) -> rec_of (clients s) a = Some r ->
+  Forall (fun x => forallb (idle_op a (c_qid r)) (fst x) = true) segs ->
+  Forall (fun x => (0 <= snd x <= D)%Z) segs ->
+  (tick phase period k0 < c_seen r + timeout)%Z ->
+  exists n, 1 <= n /\
+    (c_seen r + timeout <= tick phase period (k0 + n) < c_seen r + timeout + period)%Z /\
+    let s' := fst (qrun cap timeout (swept (with_delayed_ticks phase period k0 segs)) s) in
+    (n <= length segs ->
+       rec_of (clients s') a = None /\ In (c_qid r) (map fst (dead (clients s'))) /\
+       exists seg d, nth_error segs (n - 1) = Some (seg, d) /\
+                     (c_seen r + timeout <= tick phase period (k0 + n) + d < c_seen r + timeout + period + D)%Z) /\
+    (Forall (fun x => (snd x < c_seen r + timeout)%Z) (with_delayed_ticks phase period k0 segs) ->
+       rec_of (clients s') a = Some r).
+Proof. exact delayed_sweeper_removes. Qed.
+
+(* A sweeper that gives its round up when the lock is busy (TryLock) sweeps nothing at such a tick: with the lock busy at every
+   tick the idle client keeps its record and its queue for ever - there is no removal bound at all (seed C17-m14). *)
+Theorem C17_sweeper_skipping_rounds_refuted : forall cap timeout (rounds : list (list qop)) s a r,
+  cm_inv (clients s) -> rec_of (clients s) a = Some r ->
+  Forall (fun seg => forallb (idle_op a (c_qid r)) seg = true) rounds ->
+  rec_of (clients (fst (qrun cap timeout (concat rounds) s))) a = Some r.
+Proof. exact skipping_sweeper_never_removes. Qed.
+
+(* non-vacuity: timeout 10, period 5, phase 1; client 7 written at 3; the sweeps of ticks 6, 11, 16 delayed by 2, 0, 3 (D = 3):
+   kept at 8 and 11, gone at 19 < 3 + 10 + 5 + 3 *)
+Example C17_sweeper_waiting_example :
+  let s := fst (qrun 4 10%Z [QWrite [1%N] 7%N 3%Z] qc_empty) in
+  let r := mkrec 7 3 0 [[1%N]] in
+  let segs := [([QWrite [2%N] 8%N 7%Z], 2%Z); ([], 0%Z); ([QOutRecv 8%N 12%Z], 3%Z)] in
+  rec_of (clients s) 7%N = Some r /\
+  with_delayed_ticks 1 5 0 segs = [([QWrite [2%N] 8%N 7%Z], 8%Z); ([], 11%Z); ([QOutRecv 8%N 12%Z], 19%Z)] /\
+  rec_of (clients (fst (qrun 4 10%Z (swept (with_delayed_ticks 1 5 0 (firstn 2 segs))) s))) 7%N = Some r /\
+  rec_of (clients (fst (qrun 4 10%Z (swept (with_delayed_ticks 1 5 0 segs)) s))) 7%N = None.
+Proof. vm_compute. repeat split; reflexivity. Qed.
